@@ -8,6 +8,8 @@ def run_check(tier, seed, replay=None):
     if replay:
         return replay_hex(c, "C07", replay)
     wd = workdir("c07")
+    mc_deflate(c, wd)
+    replay_catalogue(c, wd, "C07")
     gen = gen_streams(wd, tier, seed + 1)
     res = replay_generated(c, wd, gen)
     n, acc = account(c, res, "C07", "generated")
